@@ -282,8 +282,9 @@ Proof. intros A f p c l H. induction l; simpl; auto. now rewrite H. Qed.
 
 Fixpoint base_ep (e : ep) : ep := match e with E_estimator e' => base_ep e' | _ => e end.
 (* every modelled entry point that has a random_state argument *)
-(* (CP_PLSR has the argument but does not use it: treated separately, gf_cp_plsr) *)
-Definition seedable (e : ep) : bool := match base_ep e with E_power_iteration | E_cp_plsr => false | _ => true end.
+(* (CP_PLSR has the argument but does not use it: treated separately, gf_cp_plsr; tensor_train / tensor_ring /
+   tensor_train_matrix, E_tt_svd, have no such argument) *)
+Definition seedable (e : ep) : bool := match base_ep e with E_power_iteration | E_cp_plsr | E_tt_svd => false | _ => true end.
 
 Lemma gf_svd_interface : forall m mask nrep p, p = PInt \/ p = PLoc -> gf (sk_svd_interface m mask nrep) p AUnset = Some AUnset.
 Proof. intros m mask nrep p [->| ->]; destruct m, mask; reflexivity. Qed.
